@@ -629,8 +629,28 @@ func (e *Engine) appendOp(fr *frame, cc *ssa.CallCommon, args []Val, heap Heap) 
 		}
 		cur := e.heapGet(heap, c)
 		// new backing array N with: N[i] = S[soff+i] for i<slen ; N[slen+j] = T[toff+j]
-		n := e.sc.declare("apnd_"+c.key, arrSort(SI64, leaf))
 		sarr := e.sc.selIdx(cur, s.Arr)
+		if off, ok := e.sc.lit(s.Off); ok && !tIsString {
+			if v, _, _ := bvLitVal(off); v == 0 {
+				if cnt, ok := e.smallConst(t.Len); ok && cnt <= 8 {
+					// source starts at offset 0 and a few elements are appended: the new array is
+					// the old one with point updates (elements beyond the new length are never read)
+					tarr := e.sc.selIdx(cur, t.Arr)
+					n := sarr
+					if sl, ok := e.sc.lit(s.Len); ok {
+						if lv, _, _ := bvLitVal(sl); lv == 0 {
+							n = e.zeroArr(leaf, zeroOfLeaf(leaf, suffix, lt), -1)
+						}
+					}
+					for j := 0; j < cnt; j++ {
+						n = sto(n, e.sc.addS(s.Len, bvLit(uint64(j), 64)), e.sc.selIdx(tarr, e.sc.addS(t.Off, bvLit(uint64(j), 64))))
+					}
+					heap[c.key] = e.sc.define("H_"+c.key, c.sort, sto(cur, ref, e.sc.define("apnd", arrSort(SI64, leaf), n)))
+					return
+				}
+			}
+		}
+		n := e.sc.declare("apnd_"+c.key, arrSort(SI64, leaf))
 		// concrete small appends (the common case in this code base) are written as stores
 		if cnt, ok := e.smallConst(t.Len); ok && cnt <= 8 && !tIsString {
 			tarr := e.sc.selIdx(cur, t.Arr)
@@ -691,7 +711,7 @@ func (e *Engine) assumeCopy(dst, dOff, src, sOff, n string) {
 	}
 	i := e.sc.freshName("ci")
 	body := implies(and(app("bvsle", bvLit(0, 64), i), app("bvslt", i, n)),
-		eq(sel(dst, app("bvadd", dOff, i)), sel(src, app("bvadd", sOff, i))))
+		eq(sel(dst, e.sc.addS(dOff, i)), sel(src, e.sc.addS(sOff, i))))
 	if len(e.sc.binders) > 0 {
 		e.sc.assume(fmt.Sprintf("(forall ((%s %s)) %s)", i, SI64, body))
 	} else {
